@@ -14,19 +14,19 @@ import (
 
 // Job is what the orchestrator hands to a worker process (env VERIF_JOB = path).
 type Job struct {
-	Mode      string   `json:"mode"` // "gen" | "plans"
-	Family    string   `json:"family"`
-	SeedStart uint64   `json:"seed_start"`
-	Count     int      `json:"count"`
-	BudgetMs  int64    `json:"budget_ms"`
-	DeadlineMs int64   `json:"deadline_unix_ms,omitempty"`
-	Judge     []string `json:"judge,omitempty"` // override Plan.Judge
-	Plans     []*Plan  `json:"plans,omitempty"`
-	Out       string   `json:"out"`
-	Trace     bool     `json:"trace,omitempty"`
-	KeepPlans int      `json:"keep_plans,omitempty"` // attach the plan to the first N results
-	StallS    int      `json:"stall_s,omitempty"`
-	Free      bool     `json:"free,omitempty"` // free-run mode (race detector build)
+	Mode       string   `json:"mode"` // "gen" | "plans"
+	Family     string   `json:"family"`
+	SeedStart  uint64   `json:"seed_start"`
+	Count      int      `json:"count"`
+	BudgetMs   int64    `json:"budget_ms"`
+	DeadlineMs int64    `json:"deadline_unix_ms,omitempty"`
+	Judge      []string `json:"judge,omitempty"` // override Plan.Judge
+	Plans      []*Plan  `json:"plans,omitempty"`
+	Out        string   `json:"out"`
+	Trace      bool     `json:"trace,omitempty"`
+	KeepPlans  int      `json:"keep_plans,omitempty"` // attach the plan to the first N results
+	StallS     int      `json:"stall_s,omitempty"`
+	Free       bool     `json:"free,omitempty"` // free-run mode (race detector build)
 }
 
 // No watchdog goroutine lives in the worker: a real-time timer would perturb the order in
